@@ -17,9 +17,9 @@ def campaign(c):
     c.rule = RULE
     kinds = ['tcp', 'udp', 'unicast', 'broadcast', 'dnshost', 'icmp', 'frag', 'tunnel', 'datagram', 'tunbc']
     n = 120 if c.quick else 2500
-    for i in range(n + 2):
+    for i in range(n + 4):
         seed = c.rng.fork('c18-%d' % i)
-        k = [kinds[i % len(kinds)]] if i < n else ['non-emitting']
+        k = [kinds[i % len(kinds)]] if i < n else [['non-emitting', 'fan-out'][i % 2]]
         r1 = core.Rng(seed.s); r2 = core.Rng(seed.s)
         _, sf = netscen.build(r1, False, k, c.quick)
         _, sr = netscen.build(r2, True, k, c.quick)
@@ -51,10 +51,12 @@ def campaign(c):
     # tunnel outer packets: every kind x session parameters (the GRE protocol type is only a label) x raw omitted / false / true
     sess = [('vxlan::session(A:1000, B:4789%s)', ['', ', sessionid: 0', ', sessionid: 16777215']),
             ('gre::session(A, B%s)', [', 0x0800', ', 0x86dd', ', 0x6558', ', 0x88be', ', 0', ', 0xffff', ', 0x0806', ', 2048']),
-            ('erspan1::session(A, B%s)', ['']), ('erspan2::session(A, B%s)', [''])]
-    inner = 'eth::frame("|000000000001|", "|000000000002|", "|c0ffee|")'
+            ('erspan1::session(A, B%s)', ['']), ('erspan2::session(A, B%s)', ['', '@, port_index: 0', '@, port_index: 7', '@, port_index: 1048575'])]
+    inner0 = 'eth::frame("|000000000001|", "|000000000002|", "|c0ffee|")'
     for tmpl, params in sess:
         for pi, par in enumerate(params):
+            inner = inner0 + (par[1:] if par.startswith('@') else '')       # per-call options of encap (ERSPAN II port index)
+            par = '' if par.startswith('@') else par
             r = c.rng.fork('tun-%s-%d' % (tmpl[:4], pi))
             a, b = netscen.addr(r), netscen.addr(r)
             recs = {}
